@@ -434,6 +434,21 @@ func specialise(pkgs map[string]*packages.Package) ([]string, error) {
 // Go's boolean and comparison operators on the (side-effect free or not)
 // operands, evaluated in the same order.
 func normaliseSyntax(pkgs map[string]*packages.Package) (int, error) {
+	total := 0
+	for iter := 0; iter < 6; iter++ {
+		n := normaliseOnce(pkgs)
+		if n == 0 {
+			break
+		}
+		total += n
+		if err := recheck(pkgs); err != nil {
+			return total, err
+		}
+	}
+	return total, nil
+}
+
+func normaliseOnce(pkgs map[string]*packages.Package) int {
 	n := 0
 	for _, path := range []string{pathRoot, pathW, pathCmd} {
 		p := pkgs[path]
@@ -518,6 +533,27 @@ func normaliseSyntax(pkgs map[string]*packages.Package) (int, error) {
 				n++
 				return true
 			}, nil)
+			// (d) `var x = v` in a block is `x := v`
+			astutil.Apply(f, func(c *astutil.Cursor) bool {
+				ds, ok := c.Node().(*ast.DeclStmt)
+				if !ok {
+					return true
+				}
+				if _, inBlock := c.Parent().(*ast.BlockStmt); !inBlock {
+					return true
+				}
+				gd := ds.Decl.(*ast.GenDecl)
+				if gd.Tok != token.VAR || len(gd.Specs) != 1 {
+					return true
+				}
+				vs := gd.Specs[0].(*ast.ValueSpec)
+				if vs.Type != nil || len(vs.Names) != 1 || len(vs.Values) != 1 || vs.Names[0].Name == "_" {
+					return true
+				}
+				c.Replace(&ast.AssignStmt{Lhs: []ast.Expr{vs.Names[0]}, TokPos: vs.Names[0].End(), Tok: token.DEFINE, Rhs: vs.Values})
+				n++
+				return true
+			}, nil)
 			// (c) `c := cond; if c {…}` with c used nowhere else is `if cond {…}`
 			astutil.Apply(f, func(c *astutil.Cursor) bool {
 				blk, ok := c.Node().(*ast.BlockStmt)
@@ -540,11 +576,353 @@ func normaliseSyntax(pkgs map[string]*packages.Package) (int, error) {
 							}
 						}
 					}
+					if ok && as.Tok == token.DEFINE && len(as.Lhs) == 1 && len(as.Rhs) == 1 && i+1 < len(blk.List) {
+						// `v := call; return v` with v used nowhere else is `return call`
+						if rt, ok := blk.List[i+1].(*ast.ReturnStmt); ok && len(rt.Results) == 1 {
+							if lhs, ok := as.Lhs[0].(*ast.Ident); ok {
+								if rid, ok := rt.Results[0].(*ast.Ident); ok && info.Defs[lhs] != nil && info.Uses[rid] == info.Defs[lhs] && useCount[info.Defs[lhs]] == 1 {
+									if _, isCall := as.Rhs[0].(*ast.CallExpr); isCall {
+										if tv, ok := info.Types[as.Rhs[0]]; ok && !tv.IsType() {
+											if _, isTuple := tv.Type.(*types.Tuple); !isTuple {
+												rt.Results[0] = as.Rhs[0]
+												n++
+												continue
+											}
+										}
+									}
+								}
+							}
+						}
+					}
 					out = append(out, blk.List[i])
 				}
 				blk.List = out
 				return true
 			}, nil)
+			// (e) a tagless switch whose arms leave it only by falling out of it is an if / else-if chain
+			astutil.Apply(f, nil, func(c *astutil.Cursor) bool {
+				sw, ok := c.Node().(*ast.SwitchStmt)
+				if !ok || sw.Tag != nil || sw.Init != nil || len(sw.Body.List) == 0 {
+					return true
+				}
+				if _, inBlock := c.Parent().(*ast.BlockStmt); !inBlock {
+					return true
+				}
+				bad := false
+				ast.Inspect(sw, func(m ast.Node) bool {
+					if b, ok := m.(*ast.BranchStmt); ok && (b.Tok == token.FALLTHROUGH || b.Tok == token.BREAK) {
+						bad = true
+					}
+					return true
+				})
+				var dflt *ast.CaseClause
+				var cases []*ast.CaseClause
+				for _, st := range sw.Body.List {
+					cc := st.(*ast.CaseClause)
+					if cc.List == nil {
+						if st != sw.Body.List[len(sw.Body.List)-1] {
+							bad = true
+						}
+						dflt = cc
+						continue
+					}
+					cases = append(cases, cc)
+				}
+				if bad || len(cases) == 0 {
+					return true
+				}
+				var head, cur *ast.IfStmt
+				for _, cc := range cases {
+					var cond ast.Expr = cc.List[0]
+					for _, e := range cc.List[1:] {
+						cond = &ast.BinaryExpr{X: cond, OpPos: e.Pos() - 1, Op: token.LOR, Y: e}
+					}
+					is := &ast.IfStmt{If: cc.Pos(), Cond: cond, Body: &ast.BlockStmt{Lbrace: cc.Colon, List: cc.Body, Rbrace: cc.End()}}
+					if head == nil {
+						head = is
+					} else {
+						cur.Else = is
+					}
+					cur = is
+				}
+				if dflt != nil {
+					cur.Else = &ast.BlockStmt{Lbrace: dflt.Colon, List: dflt.Body, Rbrace: dflt.End()}
+				}
+				c.Replace(head)
+				n++
+				return true
+			})
+			// (f) at the end of a block, `if c {X} else {REST}` where X leaves the block is `if c {X}; REST`;
+			// at the end of a loop body X is made to leave it (continue)
+			astutil.Apply(f, nil, func(c *astutil.Cursor) bool {
+				body, ok := c.Node().(*ast.BlockStmt)
+				if !ok {
+					return true
+				}
+				isLoopBody := false
+				switch l := c.Parent().(type) {
+				case *ast.ForStmt:
+					isLoopBody = l.Body == body
+				case *ast.RangeStmt:
+					isLoopBody = l.Body == body
+				}
+				for len(body.List) > 0 {
+					is, ok := body.List[len(body.List)-1].(*ast.IfStmt)
+					if !ok {
+						break
+					}
+					el, ok := is.Else.(*ast.BlockStmt)
+					if !ok {
+						break
+					}
+					if !isLoopBody && !terminates(is.Body) {
+						break
+					}
+					clash := false
+					if is.Init != nil {
+						// the rest must not see what the if statement's init declares
+						own := map[types.Object]bool{}
+						ast.Inspect(is.Init, func(m ast.Node) bool {
+							if id, ok := m.(*ast.Ident); ok && info.Defs[id] != nil {
+								own[info.Defs[id]] = true
+							}
+							return true
+						})
+						ast.Inspect(el, func(m ast.Node) bool {
+							if id, ok := m.(*ast.Ident); ok && own[info.Uses[id]] {
+								clash = true
+							}
+							return true
+						})
+					}
+					sc := info.Scopes[body]
+					if sc == nil {
+						if ft, ok := c.Parent().(*ast.FuncDecl); ok {
+							sc = info.Scopes[ft.Type]
+						} else if fl, ok := c.Parent().(*ast.FuncLit); ok {
+							sc = info.Scopes[fl.Type]
+						}
+					}
+					for _, st := range el.List {
+						if as, ok := st.(*ast.AssignStmt); ok && as.Tok == token.DEFINE {
+							for _, l := range as.Lhs {
+								if id, ok := l.(*ast.Ident); ok && id.Name != "_" && (sc == nil || sc.Lookup(id.Name) != nil) {
+									clash = true
+								}
+							}
+						}
+						if _, ok := st.(*ast.DeclStmt); ok {
+							clash = true
+						}
+					}
+					if clash {
+						break
+					}
+					if !terminates(is.Body) {
+						is.Body.List = append(is.Body.List, &ast.BranchStmt{TokPos: is.Body.Rbrace, Tok: token.CONTINUE})
+					}
+					is.Else = nil
+					body.List = append(body.List, el.List...)
+					n++
+				}
+				return true
+			})
+			// (g) `if a { if b {X} }` is `if a && b {X}`
+			astutil.Apply(f, nil, func(c *astutil.Cursor) bool {
+				is, ok := c.Node().(*ast.IfStmt)
+				if !ok || is.Else != nil || is.Init != nil || len(is.Body.List) != 1 {
+					return true
+				}
+				in, ok := is.Body.List[0].(*ast.IfStmt)
+				if !ok || in.Else != nil || in.Init != nil {
+					return true
+				}
+				is.Cond = &ast.BinaryExpr{X: is.Cond, OpPos: in.Pos(), Op: token.LAND, Y: in.Cond}
+				is.Body = in.Body
+				n++
+				return true
+			})
+			// (h) emptiness tests have one spelling: len(x) == 0 / len(x) > 0, and s == "" / s != "" for strings
+			astutil.Apply(f, nil, func(c *astutil.Cursor) bool {
+				be, ok := c.Node().(*ast.BinaryExpr)
+				if !ok {
+					return true
+				}
+				cl, ok := be.X.(*ast.CallExpr)
+				if !ok || len(cl.Args) != 1 {
+					return true
+				}
+				if id, ok := cl.Fun.(*ast.Ident); !ok || id.Name != "len" || info.Uses[id] == nil || info.Uses[id].Pkg() != nil {
+					return true
+				}
+				lit, ok := be.Y.(*ast.BasicLit)
+				if !ok || lit.Kind != token.INT {
+					return true
+				}
+				empty, decided := false, false
+				switch {
+				case lit.Value == "0" && (be.Op == token.EQL || be.Op == token.LEQ), lit.Value == "1" && be.Op == token.LSS:
+					empty, decided = true, true
+				case lit.Value == "0" && (be.Op == token.NEQ || be.Op == token.GTR), lit.Value == "1" && be.Op == token.GEQ:
+					empty, decided = false, true
+				}
+				if !decided {
+					return true
+				}
+				isString := false
+				if t := info.TypeOf(cl.Args[0]); t != nil {
+					if b, ok := t.Underlying().(*types.Basic); ok && b.Info()&types.IsString != 0 {
+						isString = true
+					}
+				}
+				if isString {
+					op := token.NEQ
+					if empty {
+						op = token.EQL
+					}
+					c.Replace(&ast.BinaryExpr{X: cl.Args[0], OpPos: be.OpPos, Op: op, Y: &ast.BasicLit{ValuePos: lit.ValuePos, Kind: token.STRING, Value: `""`}})
+					n++
+					return true
+				}
+				wantOp, wantLit := token.GTR, "0"
+				if empty {
+					wantOp = token.EQL
+				}
+				if be.Op != wantOp || lit.Value != wantLit {
+					be.Op, lit.Value = wantOp, wantLit
+					n++
+				}
+				return true
+			})
+			// (i) `if c {return true}; return E` is `return c || E`; `if c {return false}; return E` is `return !c && E`
+			astutil.Apply(f, nil, func(c *astutil.Cursor) bool {
+				body, ok := c.Node().(*ast.BlockStmt)
+				if !ok {
+					return true
+				}
+				boolLit := func(e ast.Expr) (bool, bool) {
+					id, ok := e.(*ast.Ident)
+					if !ok || (id.Name != "true" && id.Name != "false") {
+						return false, false
+					}
+					if o := info.Uses[id]; o != nil && o.Pkg() != nil {
+						return false, false
+					}
+					return id.Name == "true", true
+				}
+				for len(body.List) >= 2 {
+					rt, ok := body.List[len(body.List)-1].(*ast.ReturnStmt)
+					if !ok || len(rt.Results) != 1 {
+						break
+					}
+					is, ok := body.List[len(body.List)-2].(*ast.IfStmt)
+					if !ok || is.Init != nil || is.Else != nil || len(is.Body.List) != 1 {
+						break
+					}
+					irt, ok := is.Body.List[0].(*ast.ReturnStmt)
+					if !ok || len(irt.Results) != 1 {
+						break
+					}
+					v, isLit := boolLit(irt.Results[0])
+					if !isLit {
+						break
+					}
+					if t := info.TypeOf(rt.Results[0]); t == nil {
+						if _, ok := boolLit(rt.Results[0]); !ok {
+							if _, isBin := rt.Results[0].(*ast.BinaryExpr); !isBin {
+								if _, isNot := rt.Results[0].(*ast.UnaryExpr); !isNot {
+									break
+								}
+							}
+						}
+					} else if b, ok := t.Underlying().(*types.Basic); !ok || b.Info()&types.IsBoolean == 0 {
+						break
+					}
+					rest := rt.Results[0]
+					rv, restLit := boolLit(rest)
+					var e ast.Expr
+					switch {
+					case v && restLit && !rv:
+						e = is.Cond // if c {return true}; return false
+					case !v && restLit && rv:
+						e = &ast.UnaryExpr{OpPos: is.Cond.Pos(), Op: token.NOT, X: is.Cond}
+					case v && restLit && rv, !v && restLit && !rv:
+						e = nil // both arms the same constant: the condition is still evaluated; leave alone
+					case v:
+						e = &ast.BinaryExpr{X: is.Cond, OpPos: is.Cond.End(), Op: token.LOR, Y: rest}
+					default:
+						e = &ast.BinaryExpr{X: &ast.UnaryExpr{OpPos: is.Cond.Pos(), Op: token.NOT, X: is.Cond}, OpPos: is.Cond.End(), Op: token.LAND, Y: rest}
+					}
+					if e == nil {
+						break
+					}
+					rt.Results[0] = e
+					body.List = append(body.List[:len(body.List)-2], rt)
+					n++
+				}
+				return true
+			})
+			// (j) `for i := range xs { x := xs[i]; … }` is `for i, x := range xs { … }` (xs a slice that the loop does not assign)
+			astutil.Apply(f, nil, func(c *astutil.Cursor) bool {
+				rs, ok := c.Node().(*ast.RangeStmt)
+				if !ok || rs.Tok != token.DEFINE || rs.Value != nil || rs.Key == nil || len(rs.Body.List) == 0 {
+					return true
+				}
+				kid, ok := rs.Key.(*ast.Ident)
+				if !ok || kid.Name == "_" || info.Defs[kid] == nil {
+					return true
+				}
+				t := info.TypeOf(rs.X)
+				if t == nil {
+					return true
+				}
+				if _, isSlice := t.Underlying().(*types.Slice); !isSlice || !pureExpr(rs.X) {
+					return true
+				}
+				as, ok := rs.Body.List[0].(*ast.AssignStmt)
+				if !ok || as.Tok != token.DEFINE || len(as.Lhs) != 1 || len(as.Rhs) != 1 {
+					return true
+				}
+				vid, ok := as.Lhs[0].(*ast.Ident)
+				if !ok || vid.Name == "_" {
+					return true
+				}
+				ix, ok := as.Rhs[0].(*ast.IndexExpr)
+				if !ok || exprText(ix.X) != exprText(rs.X) {
+					return true
+				}
+				iid, ok := ix.Index.(*ast.Ident)
+				if !ok || info.Uses[iid] != info.Defs[kid] {
+					return true
+				}
+				root := exprText(rs.X)
+				written := false
+				ast.Inspect(rs.Body, func(m ast.Node) bool {
+					switch x := m.(type) {
+					case *ast.AssignStmt:
+						for _, l := range x.Lhs {
+							if lt := exprText(l); lt == root || strings.HasPrefix(lt, root+"[") {
+								written = true
+							}
+						}
+					case *ast.IncDecStmt:
+						if lt := exprText(x.X); lt == root || strings.HasPrefix(lt, root+"[") {
+							written = true
+						}
+					}
+					return true
+				})
+				if written {
+					return true
+				}
+				rs.Value = vid
+				rs.Body.List = rs.Body.List[1:]
+				if useCount[info.Defs[kid]] == 1 {
+					kid.Name = "_"
+				}
+				n++
+				return true
+			})
 			astutil.Apply(f, nil, func(c *astutil.Cursor) bool {
 				switch x := c.Node().(type) {
 				case *ast.UnaryExpr:
@@ -569,8 +947,22 @@ func normaliseSyntax(pkgs map[string]*packages.Package) (int, error) {
 			})
 		}
 	}
-	if n == 0 {
-		return 0, nil
+	return n
+}
+
+// pureExpr: identifiers and field selections of them.
+func pureExpr(e ast.Expr) bool {
+	switch x := e.(type) {
+	case *ast.Ident:
+		return true
+	case *ast.SelectorExpr:
+		return pureExpr(x.X)
 	}
-	return n, recheck(pkgs)
+	return false
+}
+
+func exprText(e ast.Expr) string {
+	var b bytes.Buffer
+	printer.Fprint(&b, token.NewFileSet(), e)
+	return b.String()
 }
